@@ -192,7 +192,7 @@ fn port_event(code: u8, ics: bool, open_frame: bool, port: u8, follower: bool) {
 	forget(res);
 }
 
-// @verif property=C06 tier=quick mem=12 timeout=2400
+// @verif property=C06 tier=quick mem=10 timeout=2400
 // @encodes peppi::io::slippi::de::parse_event Frame Pre arm: event addressed to the occupied port, arbitrary frame id
 // @symbolic 700 open frame's id and payload; frame id and payload of the event
 // @bound 3.16 state, one occupied port (P2, not Ice Climbers), one open frame, one event; port byte 1 and follower flag false are concrete (a symbolic port index turns every column access into a symbolic pointer: > 19 min)
@@ -209,7 +209,7 @@ fn c06_nopanic_pre_addressed() {
 	kani::cover!(true, "returned");
 }
 
-// @verif property=C06 tier=quick mem=12 timeout=2400
+// @verif property=C06 tier=quick mem=24 timeout=2400
 // @encodes peppi::io::slippi::de::parse_event Frame Pre arm: event addressed to follower flag set for a port that does not hold Ice Climbers
 // @symbolic 700 open frame's id and payload; frame id and payload of the event
 // @bound 3.16 state, one occupied port (P2, not Ice Climbers), one open frame, one event; port byte 1 and follower flag true are concrete (a symbolic port index turns every column access into a symbolic pointer: > 19 min)
@@ -226,7 +226,7 @@ fn c06_nopanic_pre_follower_non_ics() {
 	kani::cover!(true, "returned");
 }
 
-// @verif property=C06 tier=quick mem=12 timeout=2400
+// @verif property=C06 tier=quick mem=24 timeout=2400
 // @encodes peppi::io::slippi::de::parse_event Frame Pre arm: event addressed to a port that is not occupied
 // @symbolic 700 open frame's id and payload; frame id and payload of the event
 // @bound 3.16 state, one occupied port (P2, not Ice Climbers), one open frame, one event; port byte 0 and follower flag false are concrete (a symbolic port index turns every column access into a symbolic pointer: > 19 min)
@@ -243,7 +243,7 @@ fn c06_nopanic_pre_unoccupied() {
 	kani::cover!(true, "returned");
 }
 
-// @verif property=C06 tier=quick mem=12 timeout=2400
+// @verif property=C06 tier=quick mem=10 timeout=2400
 // @encodes peppi::io::slippi::de::parse_event Frame Pre arm: event addressed to port number 4 (out of range)
 // @symbolic 700 open frame's id and payload; frame id and payload of the event
 // @bound 3.16 state, one occupied port (P2, not Ice Climbers), one open frame, one event; port byte 4 and follower flag false are concrete (a symbolic port index turns every column access into a symbolic pointer: > 19 min)
@@ -260,7 +260,7 @@ fn c06_nopanic_pre_port4() {
 	kani::cover!(true, "returned");
 }
 
-// @verif property=C06 tier=quick mem=12 timeout=2400
+// @verif property=C06 tier=quick mem=10 timeout=2400
 // @encodes peppi::io::slippi::de::parse_event Frame Pre arm: event addressed to port number 255 (out of range), follower flag set
 // @symbolic 700 open frame's id and payload; frame id and payload of the event
 // @bound 3.16 state, one occupied port (P2, not Ice Climbers), one open frame, one event; port byte 255 and follower flag true are concrete (a symbolic port index turns every column access into a symbolic pointer: > 19 min)
@@ -277,7 +277,7 @@ fn c06_nopanic_pre_port255() {
 	kani::cover!(true, "returned");
 }
 
-// @verif property=C06 tier=quick mem=12 timeout=2400
+// @verif property=C06 tier=quick mem=10 timeout=2400
 // @encodes peppi::io::slippi::de::parse_event Frame Post arm: event addressed to the occupied port, arbitrary frame id
 // @symbolic 860 open frame's id and payload; frame id and payload of the event
 // @bound 3.16 state, one occupied port (P2, not Ice Climbers), one open frame, one event; port byte 1 and follower flag false are concrete (a symbolic port index turns every column access into a symbolic pointer: > 19 min)
@@ -294,7 +294,7 @@ fn c06_nopanic_post_addressed() {
 	kani::cover!(true, "returned");
 }
 
-// @verif property=C06 tier=quick mem=12 timeout=2400
+// @verif property=C06 tier=quick mem=24 timeout=2400
 // @encodes peppi::io::slippi::de::parse_event Frame Post arm: event addressed to follower flag set for a port that does not hold Ice Climbers
 // @symbolic 860 open frame's id and payload; frame id and payload of the event
 // @bound 3.16 state, one occupied port (P2, not Ice Climbers), one open frame, one event; port byte 1 and follower flag true are concrete (a symbolic port index turns every column access into a symbolic pointer: > 19 min)
@@ -311,7 +311,7 @@ fn c06_nopanic_post_follower_non_ics() {
 	kani::cover!(true, "returned");
 }
 
-// @verif property=C06 tier=thorough mem=12 timeout=2400
+// @verif property=C06 tier=thorough mem=24 timeout=2400
 // @encodes peppi::io::slippi::de::parse_event Frame Post arm: event addressed to a port that is not occupied
 // @symbolic 860 open frame's id and payload; frame id and payload of the event
 // @bound 3.16 state, one occupied port (P2, not Ice Climbers), one open frame, one event; port byte 0 and follower flag false are concrete (a symbolic port index turns every column access into a symbolic pointer: > 19 min)
@@ -328,7 +328,7 @@ fn c06_nopanic_post_unoccupied() {
 	kani::cover!(true, "returned");
 }
 
-// @verif property=C06 tier=quick mem=12 timeout=2400
+// @verif property=C06 tier=quick mem=10 timeout=2400
 // @encodes peppi::io::slippi::de::parse_event Frame Post arm: event addressed to port number 4 (out of range)
 // @symbolic 860 open frame's id and payload; frame id and payload of the event
 // @bound 3.16 state, one occupied port (P2, not Ice Climbers), one open frame, one event; port byte 4 and follower flag false are concrete (a symbolic port index turns every column access into a symbolic pointer: > 19 min)
@@ -345,7 +345,7 @@ fn c06_nopanic_post_port4() {
 	kani::cover!(true, "returned");
 }
 
-// @verif property=C06 tier=thorough mem=12 timeout=2400
+// @verif property=C06 tier=thorough mem=10 timeout=2400
 // @encodes peppi::io::slippi::de::parse_event Frame Post arm: event addressed to port number 255 (out of range), follower flag set
 // @symbolic 860 open frame's id and payload; frame id and payload of the event
 // @bound 3.16 state, one occupied port (P2, not Ice Climbers), one open frame, one event; port byte 255 and follower flag true are concrete (a symbolic port index turns every column access into a symbolic pointer: > 19 min)
